@@ -71,9 +71,9 @@ ASSUMPTIONS = [
     "detector index map taken from the documentation: exact_interpolation records are co-located at the E_z Yee point (on-plane for electric x/y planes), raw staggered records use the plain flip",
     "reduce_volume clause: the reduction is the detector's own (volume-weighted mean for Field/Phasor through the real _volume_weighted_spatial_mean, weighted sum for Energy/Poynting) with a uniform positive cell weight (symbolic); proved end-to-end for symbolic values on the enumerated reduced shapes REDUCE_SHAPES, and for symbolic extents as the per-cell lemma 'a cell and its 2^k mirror images add up to K*factor*S[i]'; passing from that lemma to the sums is the re-indexing of a finite sum by the reflection bijection (not mechanised here)",
     "configuration space: symmetry tuples {-1,0,1}^3 minus 0 (26) x straddle masks (8); quick tier = one (symmetry, mask) pair per 'touched' class (27 classes, which is all the unfolding depends on) and a stated sample of component subsets; thorough tier = all 208 pairs and all 63 component subsets",
-    "detector kinds covered: FieldDetector, PhasorDetector, EnergyDetector (spatial / as_slices / reduce_volume), PoyntingFluxDetector (scalar / all components, spatial / summed), DiffractiveDetector (documented NotImplementedError); ModeOverlapDetector is unfolded by the PhasorDetector branch and is not constructed separately",
+    "detector kinds covered: FieldDetector, PhasorDetector, EnergyDetector (spatial / as_slices / reduce_volume), PoyntingFluxDetector (scalar / all components, spatial / summed), ModeOverlapDetector (raw stored phasor, unfolded by the PhasorDetector branch), DiffractiveDetector (documented NotImplementedError); other detector classes raise the documented NotImplementedError and are not exercised",
 ]
-MIN_OBLIGATIONS = {"quick": 3000, "thorough": 20000}
+MIN_OBLIGATIONS = {"quick": 8000, "thorough": 300000}
 LEVEL_TEXT = "Deductive proof, for all array values and all extents (symbolic), that the real mirror helpers, unfold_fields, unfold_array and unfold_detector_states produce exactly the documented full-domain array (kept half == input, mirrored half == parity * input at the documented m+-j / flip index) for every symmetry tuple, straddle mask, detector kind and enumerated component subset; parity and index-map tables checked exhaustively against the physical table"
 LEVEL_NOTE = "real arithmetic; the summation clause (reduce_volume) is proved per enumerated small shape plus a symbolic-extent per-cell lemma, the finite-sum re-indexing between the two is not mechanised; quick tier covers a stated subset of the configuration space"
 
@@ -287,11 +287,11 @@ def _gen_tables(cfg, mk):
     for ft in FIELD_TYPES:
         for comp in range(3):
             for ax in range(3):
-                yield f"component_sits_on_plane({ft},{comp},{ax})", P.component_sits_on_plane(ft, comp, ax) is spec_sits_on_plane(ft, comp, ax), None, None
+                yield f"component_sits_on_plane({ft},{comp},{ax})", bool(P.component_sits_on_plane(ft, comp, ax)) == spec_sits_on_plane(ft, comp, ax), None, None
                 for wall in WALLS:
                     got = P.field_component_parity(ft, comp, ax, wall)
-                    yield f"field_component_parity({ft},{comp},{ax},{wall:+d})", type(got) is int and got == spec_parity(ft, comp, ax, wall), None, None
-                    yield f"mirror_pairs_on_plane({ft},{comp},{ax},{wall:+d})", P.mirror_pairs_on_plane(ft, comp, ax, wall) is spec_pairs_on_plane(ft, comp, ax, wall), None, None
+                    yield f"field_component_parity({ft},{comp},{ax},{wall:+d})", got == spec_parity(ft, comp, ax, wall), None, None
+                    yield f"mirror_pairs_on_plane({ft},{comp},{ax},{wall:+d})", bool(P.mirror_pairs_on_plane(ft, comp, ax, wall)) == spec_pairs_on_plane(ft, comp, ax, wall), None, None
                     # the table re-exported by the user-facing module
                     yield f"fdtd.symmetry.field_component_parity({ft},{comp},{ax},{wall:+d})", S.field_component_parity(ft, comp, ax, wall) == spec_parity(ft, comp, ax, wall), None, None
     for comp in range(3):
@@ -506,6 +506,8 @@ def _make_detector(kind, opts, name="det"):
     if kind == "phasor":
         wcs = (WaveCharacter(wavelength=1e-6), WaveCharacter(wavelength=1.5e-6))
         return fdtdx.PhasorDetector(name=name, wave_characters=wcs, components=tuple(opts["components"]), reduce_volume=opts.get("reduce", False), exact_interpolation=exact, plot=False)
+    if kind == "modeoverlap":  # a PhasorDetector subclass: all six components, one frequency here
+        return fdtdx.ModeOverlapDetector(name=name, wave_characters=(WaveCharacter(wavelength=1e-6),), direction="+", exact_interpolation=exact)
     if kind == "energy":
         return fdtdx.EnergyDetector(name=name, as_slices=opts.get("mode") == "slices", reduce_volume=opts.get("mode") == "reduced", exact_interpolation=exact, plot=False)
     if kind == "poynting":
@@ -570,12 +572,12 @@ def _detector_state_and_spec(kind, opts, dims, touched, T, mk):
     def plan_for(spatial, sign_of):
         return {spatial[a]: ((lambda src, a=a: sign_of(src, a)), spec_colocated_on_plane(exact, a, touched[a])) for a in axes if spatial[a] is not None}
 
-    if kind in ("field", "phasor"):
-        comps = stored_components(opts["components"])
+    if kind in ("field", "phasor", "modeoverlap"):
+        comps = stored_components(opts.get("components", COMPONENT_NAMES))
         if kind == "field":
             shape, spatial, ca, key, k = (T, len(comps), *dims), (2, 3, 4), 1, "fields", "real"
         else:
-            shape, spatial, ca, key, k = (1, 2, len(comps), *dims), (3, 4, 5), 2, "phasor", "complex"
+            shape, spatial, ca, key, k = (1, 1 if kind == "modeoverlap" else 2, len(comps), *dims), (3, 4, 5), 2, "phasor", "complex"
         X = mk.arr("S", shape, k)
         plan = plan_for(spatial, lambda src, a: spec_parity(comps[src[ca]][0], comps[src[ca]][1], a, touched[a]))
         return {key: X}, {key: spec_unfold(X, plan) if axes else X}
@@ -606,8 +608,10 @@ def _detector_state_and_spec(kind, opts, dims, touched, T, mk):
 def _component_subsets(tier, rnd):
     allsub = [tuple(n for n, b in zip(COMPONENT_NAMES, bits) if b) for bits in itertools.product((0, 1), repeat=6) if any(bits)]
     if tier == "thorough":
-        return allsub
-    pick = [COMPONENT_NAMES, ("Hz", "Ex")]
+        return allsub + [("Hx", "Ez", "Ex")]
+    # E_c and H_c have opposite parity across every plane: a subset given in non-canonical order
+    # with such a pair exposes any confusion between user order and stored (canonical) order
+    pick = [COMPONENT_NAMES, ("Hx", "Ez", "Ex")]
     pick += rnd.sample(allsub, 2)
     return list(dict.fromkeys(pick))
 
@@ -621,6 +625,7 @@ def _spatial_variants(tier, rnd):
             lab = "".join(n for n in comps)
             out.append((f"field[{lab},{e}]", "field", {"components": list(comps), "exact": exact}))
             out.append((f"phasor[{lab},{e}]", "phasor", {"components": list(comps), "exact": exact}))
+        out.append((f"modeoverlap[{e}]", "modeoverlap", {"exact": exact}))
         out.append((f"energy[spatial,{e}]", "energy", {"mode": "spatial", "exact": exact}))
         out.append((f"energy[slices,{e}]", "energy", {"mode": "slices", "exact": exact}))
         out.append((f"poynting[all,{e}]", "poynting", {"keep_all": True, "exact": exact, "prop": 1}))
@@ -636,8 +641,8 @@ def _gen_detectors(cfg, mk):
     # extents: >= 2 on axes where co-located samples can sit on an electric plane
     dims = tuple(mk.int("n" + "xyz"[a], lo=2 if (touched[a] == -1 and a in (0, 1)) else 1) for a in range(3))
     T = mk.int("T", lo=1)
-    starts = tuple(mk.int(f"start{a}", lo=0, register=False) for a in range(3))
-    lows = tuple(mk.int(f"low{a}", hi=-1, register=False) for a in range(3))
+    starts = tuple(mk.int(f"start{a}", lo=0) for a in range(3))
+    lows = tuple(mk.int(f"low{a}", hi=-1) for a in range(3))
     for label, kind, opts in cfg["variants"]:
         det = _place_detector(_make_detector(kind, opts), dims, straddle, rcfg, starts, lows)
         state, spec = _detector_state_and_spec(kind, opts, dims, touched, T, mk)
@@ -671,7 +676,7 @@ def _reduce_variants(tier, rnd):
     out = []
     for exact in (True, False):
         e = "x" if exact else "r"
-        subs = _component_subsets(tier, rnd) if tier == "thorough" else [COMPONENT_NAMES, ("Hz", "Ex"), ("Ey",)]
+        subs = (_component_subsets(tier, rnd) + [("Hx", "Ex")]) if tier == "thorough" else [COMPONENT_NAMES, ("Hx", "Ex"), ("Ey",)]
         for comps in subs:
             lab = "".join(comps)
             out.append((f"field[{lab},{e}]", "field", {"components": list(comps), "exact": exact}))
@@ -949,8 +954,9 @@ def _configs(tier, seed):
             out[f"detectors/{lab}"] = [{"fn": "detectors", "symmetry": list(s), "straddle": list(st), "variants": variants, "extras": True}]
         if any(_touched(s, st)):
             rv = [list(v) for v in _reduce_variants("quick" if tier == "quick" else "thorough", vrnd)]
-            if tier == "thorough":
-                rv = [v for v in rv if v[1] not in ("field", "phasor") or len(v[2]["components"]) <= 2 or len(v[2]["components"]) == 6]
+            if tier == "thorough":  # all singletons, the full set, the mixed-order pair and a seeded sample of the rest
+                keep = set(vrnd.sample(sorted({tuple(v[2]["components"]) for v in rv if v[1] == "field"}), 8))
+                rv = [v for v in rv if v[1] not in ("field", "phasor") or len(v[2]["components"]) in (1, 6) or tuple(v[2]["components"]) in keep]
             out[f"reduced/{lab}"] = [
                 {"fn": "reduce_commutes", "symmetry": list(s), "straddle": list(st), "variants": rv, "shapes": [list(d) for d in REDUCE_SHAPES[tier]]},
                 {"fn": "pair_sum", "symmetry": list(s), "straddle": list(st), "variants": rv},
